@@ -151,7 +151,8 @@ def make_struct_members(xml_elem, dynamic_array=False):
             size = dimension.get("size", None)
             size2 = dimension.get("size2", None)
             if size2:
-                size = "{}*{}".format(size, size2)
+                size = "{}*{}".format(*(x if x.strip().replace("_", "a").isalnum() else "({})".format(x)
+                                        for x in (size, size2)))
             if optional:
                 yield model.StructMember("has_" + xml_elem_name, "u32", docstring="implicit enabler for optional field")
 
